@@ -407,6 +407,39 @@ func (P *Prog) checkDefaultCoercer(r *Result, fn *ssa.Function, obj ssa.Value) {
 		sv = ct.X
 	}
 	note(sv)
+	// a coercer assembled by a closure factory: the closure it returns, the functions and closures handed
+	// to it, and the unexported helpers those call
+	if cl, env, _ := P.storedCoercer(fn); cl != nil && len(env) > 0 {
+		seenF := map[*ssa.Function]bool{}
+		var scan func(f *ssa.Function, d int)
+		scan = func(f *ssa.Function, d int) {
+			if f == nil || seenF[f] || d > 3 || f.Blocks == nil {
+				return
+			}
+			seenF[f] = true
+			eachInstr(f, func(_ *ssa.BasicBlock, _ int, in ssa.Instruction) {
+				if v, ok := in.(ssa.Value); ok {
+					note(v)
+				}
+				if ci := callOf(in); ci != nil && ci.static != nil && formulaHelper(ci.static) {
+					scan(ci.static, d+1)
+				}
+			})
+		}
+		scan(cl, 0)
+		for _, v := range env {
+			switch y := v.(type) {
+			case *ssa.Function:
+				if inModule(funcPkgPath(y)) {
+					scan(y, 1)
+				}
+			case *ssa.MakeClosure:
+				if g, ok := y.Fn.(*ssa.Function); ok {
+					scan(g, 1)
+				}
+			}
+		}
+	}
 	if mc, ok := sv.(*ssa.MakeClosure); ok {
 		eachInstr(mc.Fn.(*ssa.Function), func(_ *ssa.BasicBlock, _ int, in ssa.Instruction) {
 			if v, ok := in.(ssa.Value); ok {
@@ -905,9 +938,80 @@ var coercionTable = map[string][]string{
 	},
 }
 
+// storedCoercer: the coercer a kind constructor stores into the schema it builds: the closure (or
+// function), and — when it comes from a closure factory such as a generic `narrowingCoercer(wide, narrow)` —
+// the binding of the factory's parameters and type parameters at that call.
+func (P *Prog) storedCoercer(ctor *ssa.Function) (cl *ssa.Function, env map[ssa.Value]ssa.Value, targs map[string]types.Type) {
+	if ctor == nil {
+		return nil, nil, nil
+	}
+	var stored ssa.Value
+	eachInstr(ctor, func(_ *ssa.BasicBlock, _ int, in ssa.Instruction) {
+		if st, ok := in.(*ssa.Store); ok {
+			if _, f := fieldVar(st.Addr); f != nil && P.roleName(f) == "coercer" && P.roles.kindFieldSet[f.Origin()] != nil {
+				stored = st.Val
+			}
+		}
+	})
+	if stored == nil {
+		return nil, nil, nil
+	}
+	switch x := cvi(stored).(type) {
+	case *ssa.MakeClosure:
+		f, _ := x.Fn.(*ssa.Function)
+		return f, nil, nil
+	case *ssa.Function:
+		return x, nil, nil
+	case *ssa.Call:
+		fac := callOf(x).static
+		if fac == nil || fac.Blocks == nil || !inModule(funcPkgPath(fac)) {
+			return nil, nil, nil
+		}
+		var made *ssa.MakeClosure
+		nRet := 0
+		eachInstr(fac, func(_ *ssa.BasicBlock, _ int, in ssa.Instruction) {
+			if rt, ok := in.(*ssa.Return); ok && len(rt.Results) == 1 {
+				nRet++
+				if m, ok := cvi(rt.Results[0]).(*ssa.MakeClosure); ok {
+					made = m
+				}
+			}
+		})
+		if made == nil || nRet != 1 {
+			return nil, nil, nil
+		}
+		env = map[ssa.Value]ssa.Value{}
+		for k, prm := range fac.Params {
+			if k < len(x.Call.Args) {
+				env[prm] = cv(x.Call.Args[k])
+			}
+		}
+		targs = map[string]types.Type{}
+		if inst := x.Call.StaticCallee(); inst != nil {
+			tps := fac.TypeParams()
+			tas := inst.TypeArgs()
+			for i := 0; tps != nil && i < tps.Len() && i < len(tas); i++ {
+				targs[tps.At(i).Obj().Name()] = tas[i]
+			}
+		}
+		f, _ := made.Fn.(*ssa.Function)
+		return f, env, targs
+	}
+	return nil, nil, nil
+}
+
 // coercionRows renders the success paths of a coercer.
 func (P *Prog) coercionRows(fn *ssa.Function) ([]string, []string) {
-	sh := P.predicateShape(fn)
+	return P.coercionRowsEnv(fn, nil, nil)
+}
+
+func (P *Prog) coercionRowsEnv(fn *ssa.Function, env map[ssa.Value]ssa.Value, targs map[string]types.Type) ([]string, []string) {
+	var sh predShape
+	if len(env) == 0 && len(targs) == 0 {
+		sh = P.predicateShape(fn)
+	} else {
+		sh = P.predicateShape3(fn, env, nil, targs)
+	}
 	if len(sh.problems) > 0 {
 		return nil, sh.problems
 	}
@@ -994,13 +1098,22 @@ func (P *Prog) checkCoercionTable(r *Result, rule string) {
 	}
 	for _, key := range sortedKeys(coercionTable) {
 		fn := find(key)
+		var env map[ssa.Value]ssa.Value
+		var targs map[string]types.Type
+		if ctor := P.fn(strings.TrimSuffix(key, "$1")); strings.HasSuffix(key, "$1") && ctor != nil {
+			// the adapter coercers of the numeric kinds: whatever the constructor stores as its coercer
+			// (a closure literal, or the product of a closure factory), not "its first closure"
+			if f2, e2, t2 := P.storedCoercer(ctor); f2 != nil {
+				fn, env, targs = f2, e2, t2
+			}
+		}
 		c := key
 		if fn == nil {
 			r.undecided(rule, c, "-", "coercer function not found")
 			continue
 		}
 		r.sawFunc(fname(fn))
-		rows, probs := P.coercionRows(fn)
+		rows, probs := P.coercionRowsEnv(fn, env, targs)
 		if len(probs) > 0 {
 			r.undecided(rule, c, P.pos(fn.Pos()), "coercer has an unrecognised shape: "+strings.Join(probs, "; "))
 			continue
